@@ -82,6 +82,16 @@ def request(rq):
     t = rq[0]
     C = pg.Coalescent
     if t == 'RLocusConfig': return lambda: (pg.LocusConfig(n=rq[1], n_unlinked=rq[2], recombination_rate=rq[3]), 0.0)[1]
+    if t == 'RRecombinationKeyword' and len(rq) > 2:
+        # the LocusConfig object has ALREADY been used (validly) by another Coalescent, or its attribute is reassigned after use
+        def f():
+            lc = pg.LocusConfig(n=2)
+            C(n=2, loci=lc, recombination_rate=0.5).tree_height.mean
+            if rq[2] == 'reused_keyword':
+                return C(n=3, loci=lc, recombination_rate=rq[1]).tree_height.mean
+            lc.recombination_rate = rq[1]
+            return C(n=3, loci=lc).tree_height.mean
+        return f
     if t == 'RRecombinationKeyword': return lambda: C(n=2, loci=pg.LocusConfig(n=2), recombination_rate=rq[1]).tree_height.mean
     if t == 'RSfsTwoLoci': return lambda: C(n=3, loci=rq[1]).sfs.mean.data
     if t == 'RMultipleMergerLoci':
